@@ -39,11 +39,11 @@ type c30VRaw string
 
 func (v c30VRaw) Coq() string { return string(v) }
 
-// handlers executed inside the child, by suite name
-var c30ChildRun = map[string]func(raw json.RawMessage) (V, Verdict){}
-
-func c30RegisterChild[I any](suite string, f func(in I) (V, Verdict)) {
-	c30ChildRun[suite] = func(raw json.RawMessage) (V, Verdict) {
+// handlers executed inside the child, by suite name.  The table is a
+// package-level variable (c30_search.go) so that it is complete before any
+// init function runs: the child never returns from its init.
+func c30ChildHandler[I any](f func(in I) (V, Verdict)) func(raw json.RawMessage) (V, Verdict) {
+	return func(raw json.RawMessage) (V, Verdict) {
 		var in I
 		if err := json.Unmarshal(raw, &in); err != nil {
 			panic(err)
@@ -251,6 +251,9 @@ func c30Exec[I any](suite string, in I) (V, Verdict) {
 	if hung {
 		site, _ := c30CrashSummary(trace)
 		return VS("HANG"), Fail("hang-at-"+site, "no reply from the child within 30s")
+	}
+	if strings.Contains(trace, "c30-child:") {
+		panic("c30: harness error in the child process:\n" + c30Tail(trace, 2000))
 	}
 	// the batch died: bisect to the single input
 	site, head := c30CrashSummary(trace)
